@@ -487,6 +487,24 @@ Section AsmLemmas.
       exists w, u, r. reflexivity.
   Qed.
 
+  (* when the graph conditions hold, the product is the chain's word *)
+  Theorem assemble_chain v ms c r : NoDup (map mid ms) -> vup v <> vdown v -> clash_free ms ->
+    Chain ms (vdown v) (vup v) c r ->
+    assemble v ms = Product (concat (map mfrag c) ++ vfrag v) (map mid c) (map mid r).
+  Proof.
+    intros Hid Hv Hcf Hc. pose proof (assemble_spec v ms Hid) as Hs.
+    assert (Hy : spec v ms (Product (concat (map mfrag c) ++ vfrag v) (map mid c) (map mid r))).
+    { simpl. split; [exact Hv|]. split; [exact Hcf|]. exists c, r. auto. }
+    destruct (assemble v ms) as [w u un| |a b|o|] eqn:E; simpl in Hs.
+    - destruct Hs as (_ & _ & c' & r' & Hc' & -> & -> & ->).
+      destruct (Chain_functional _ _ _ _ _ _ _ (proj1 Hcf) Hc Hc') as [-> ->]. reflexivity.
+    - contradiction.
+    - destruct Hs as (_ & Hab & ma & mb & Ha & Hb & <- & <- & Hk). exfalso.
+      eapply clash_not_free; [exact Ha|exact Hb|exact Hab|exact Hk|exact Hcf].
+    - destruct Hs as (_ & _ & Hst). exfalso. eapply Chain_Stall_excl; [exact (proj1 Hcf)|exact Hc|exact Hst].
+    - contradiction.
+  Qed.
+
   (* each module is used at most once; the unused ones are exactly the rest *)
   Theorem assemble_used_once v ms w used unused : NoDup (map mid ms) ->
     assemble v ms = Product w used unused ->
